@@ -68,7 +68,7 @@ def run_script(args):
                 s.send("position fen " + fen)
                 # depth-limited and clock-limited searches alternate (the overhead option only acts on clocks)
                 s.send(["go depth 3", "go wtime 300 btime 300", "go depth 2", "go wtime 40 btime 40 movestogo 1", "go movetime 30",
-                        "go wtime 50 btime 50 winc 500 binc 500"][(idx + k) % 6])
+                        "go wtime 50 btime 50 winc 500 binc 500", "go wtime 3000 btime 3000 movestogo 40"][(idx + k) % 7])
                 ok = s.wait_count("bestmove", nb + 1, 60)
                 lines = [l for _, l in s.lines[mark:]]
                 ev = dict(fen2pos(fen))
